@@ -1630,22 +1630,16 @@ Lemma forallb_ext' {A} (f g : A -> bool) l : (forall x, f x = g x) -> forallb f 
 Proof. intros H. induction l as [|x l IH]; cbn [forallb]; [reflexivity|]. now rewrite H, IH. Qed.
 
 Lemma import_step_ok q s :
-  1 <= s_handle s -> svc_spec s -> svc_importable s = true ->
+  1 <= s_handle s -> svc_spec s ->
   import_step (Done q) (export_svc s) = Done (add_service q (imp_svc s)).
 Proof.
-  intros H1 Hs Himp. pose proof Hs as (_ & Hcs & _ & He). rewrite lenN_svc_dump in He. unfold svc_size in He.
+  intros H1 Hs. pose proof Hs as (_ & Hcs & _ & He). rewrite lenN_svc_dump in He. unfold svc_size in He.
   pose proof (chars_spec_facts _ _ Hcs) as Hf. rewrite Forall_forall in Hf.
-  unfold svc_importable in Himp. apply andb_true_iff in Himp as [Hu Hc].
   unfold import_step, export_svc. cbn [js_type js_uuid js_start js_end js_chars].
-  assert (E1 : importable (svc_type s) = true) by (unfold svc_type; now destruct (s_primary s)).
   assert (E2 : uuid_eqb (svc_type s) (u16 0x2800) = s_primary s) by (unfold svc_type; now destruct (s_primary s)).
   assert (E3 : uuid_eqb (svc_type s) (u16 0x2800) || uuid_eqb (svc_type s) (u16 0x2801) = true)
     by (unfold svc_type; now destruct (s_primary s)).
-  rewrite E1, E3, Hu. cbn [negb].
-  assert (E4 : forallb jchar_importable (map export_chr (s_chars s)) = true).
-  { rewrite forallb_map. rewrite <- Hc. apply forallb_ext'. intros c. unfold jchar_importable, chr_importable, export_chr.
-    cbn [jc_uuid jc_descs]. now rewrite forallb_map. }
-  rewrite E4, E2. cbn [negb]. f_equal. f_equal. rewrite map_map. fold imp_chr.
+  rewrite E3, E2. cbn [negb]. f_equal. f_equal. rewrite map_map. fold imp_chr.
   rewrite add_chars_nonzero.
   - cbn [s_id s_primary s_uuid s_handle s_end s_incls s_chars app]. unfold imp_svc. f_equal.
     apply fold_max_le. apply Forall_forall. intros x Hx. apply in_map_iff in Hx as (c & <- & Hc').
@@ -1659,16 +1653,14 @@ Proof. intros H. unfold placed. cbn [number_svc s_handle]. destruct (s_handle s0
 
 Lemma import_fold l : forall q lo hi,
   InvW q -> 1 <= lo -> p_next q <= lo -> gchain svc_entries lo l hi -> Forall svc_ok l ->
-  forallb svc_importable l = true ->
   exists q', fold_left import_step (map export_svc l) (Done q) = Done q' /\ InvW q'
              /\ map export_svc (p_svcs q') = map export_svc (p_svcs q) ++ map export_svc l.
 Proof.
-  induction l as [|s r IH]; intros q lo hi HW Hlo Hn Hc Hok Himp; cbn [map fold_left].
+  induction l as [|s r IH]; intros q lo hi HW Hlo Hn Hc Hok; cbn [map fold_left].
   - exists q. split; [reflexivity|]. split; [exact HW|]. now rewrite app_nil_r.
   - cbn [gchain] in Hc. destruct Hc as (H1 & H2 & H3). apply Forall_cons_iff in Hok as [Hoks Hokr].
-    cbn [forallb] in Himp. apply andb_true_iff in Himp as [Hi1 Hi2].
     pose proof (svc_ok_spec _ Hoks) as Hsp.
-    rewrite import_step_ok; [|lia|exact Hsp|exact Hi1].
+    rewrite import_step_ok; [|lia|exact Hsp].
     assert (Hnz : s_handle (imp_svc s) <> 0) by (cbn [imp_svc s_handle]; lia).
     pose proof (placed_nonzero q _ Hnz) as Hp.
     assert (HW1 : InvW (add_service q (imp_svc s))).
@@ -1701,9 +1693,9 @@ Qed.
 
 (** Exporting, importing and exporting again gives the same export. *)
 Theorem import_export_id p :
-  Inv p -> profile_importable p = true -> exists q, import (export p) = Done q /\ export q = export p.
+  Inv p -> exists q, import (export p) = Done q /\ export q = export p.
 Proof.
-  intros HI Himp. pose proof HI as [HW Hok _]. pose proof HW as [Hst Hc _ _].
+  intros HI. pose proof HI as [HW Hok _]. pose proof HW as [Hst Hc _ _].
   rewrite (export_explicit _ HW). unfold import.
   assert (Hdom : forallb jsvc_in_domain (map export_svc (p_svcs p)) = true).
   { rewrite forallb_map. apply forallb_forall. intros s Hs. apply svc_in_domain.
@@ -1712,7 +1704,7 @@ Proof.
   rewrite Hdom.
   assert (HW0 : InvW (empty_profile 1)) by (apply (empty_inv 1); lia).
   assert (Hn0 : p_next (empty_profile 1) <= p_start p) by (cbn [empty_profile p_next]; exact Hst).
-  destruct (import_fold (p_svcs p) (empty_profile 1) (p_start p) (p_next p) HW0 Hst Hn0 Hc Hok Himp) as (q & E1 & E2 & E3).
+  destruct (import_fold (p_svcs p) (empty_profile 1) (p_start p) (p_next p) HW0 Hst Hn0 Hc Hok) as (q & E1 & E2 & E3).
   exists q. split; [exact E1|]. rewrite (export_explicit _ E2), E3. reflexivity.
 Qed.
 
@@ -1750,18 +1742,10 @@ Proof.
 Qed.
 
 Theorem import_export_reachable start sds ops q :
-  1 <= start -> run (build start sds) ops = Done q -> profile_importable q = true ->
+  1 <= start -> run (build start sds) ops = Done q ->
   exists q', import (export q) = Done q' /\ export q' = export q.
 Proof.
-  intros H E Hi. destruct (build_inv start sds H) as (H1 & _ & _).
+  intros H E. destruct (build_inv start sds H) as (H1 & _ & _).
   destruct (run_inv ops _ H1) as (q0 & E0 & HI & _). rewrite E in E0. injection E0 as <-.
   now apply import_export_id.
-Qed.
-
-Theorem import_export_refuted :
-  exists start sds ops q, 1 <= start /\ run (build start sds) ops = Done q
-                          /\ ~ exists q', import (export q) = Done q' /\ export q' = export q.
-Proof.
-  exists 1, [mkSD SKprimary (mkU U128int 5) [] []], []. eexists. split; [lia|]. split; [vm_compute; reflexivity|].
-  intros (q' & E & _). vm_compute in E. discriminate.
 Qed.
